@@ -4,12 +4,23 @@
 // two scheduling points, and a stateless depth-first search enumerates every
 // interleaving of a small concurrent program at lock-acquisition granularity.
 // It decides nothing: executions are recorded and judged by TLC.
+//
+// Whether a parked thread may run is decided from the REAL state of the lock
+// it announced (sync.Mutex.TryLock / GenericSyncMap.VerifProbe while every
+// program thread is stopped), not from book-keeping, so a change of lock scope
+// inside an instrumented method is still explored faithfully.  An announcement
+// may be stale (the method no longer takes the lock it announces): the first
+// time a thread announces a lock that is really held, it is released
+// speculatively; if it does block, the announcement is learnt to be truthful,
+// otherwise that scheduling point is treated as a plain yield from then on.
 package sched
 
 import (
 	"fmt"
 	"math/rand"
+	"runtime"
 	"sync"
+	"sync/atomic"
 	"time"
 
 	"github.com/metal-toolbox/audito-maldito/internal/common"
@@ -20,35 +31,45 @@ type Event struct {
 	T     int    `json:"t"`
 	Op    string `json:"op"`
 	Lock  string `json:"lock"`
-	Phase string `json:"ph"` // "acq" (about to acquire, chosen by the scheduler) | "rel"
+	Phase string `json:"ph"` // "acq" (released by the scheduler towards this acquisition) | "rel"
 }
+
+const (
+	stParked  = iota // waiting at a scheduling point
+	stRunning        // released, has not reported back yet
+	stBlocked        // released, found to be blocked inside a real Lock()
+	stDone
+)
 
 type thread struct {
 	id      int
 	gate    chan struct{}
-	pending any // lock object it is about to acquire (nil: initial start)
+	pending any // lock object it announced (nil: initial start)
 	pendOp  string
-	done    bool
-	parked  bool
+	state   int
+	wasFree bool
 }
+
+func reallyFreeCached(t *thread) bool { return t.wasFree }
 
 // Exec is one controlled execution.
 type Exec struct {
 	mu      sync.Mutex
 	threads []*thread
-	cur     *thread
+	cur     map[int64]*thread // goroutine id -> thread (slow path, used once a thread blocked in a real lock)
+	single  *thread           // the one running thread (fast path)
+	multi   atomic.Bool       // several program threads may be running
 	sig     chan int
-	held    map[any]*thread
 	names   map[any]string
 	Trace   []Event
 	active  bool
 
-	prefix []int
-	Taken  []int
-	Alts   []int
+	prefix  []int
+	Taken   []int
+	Alts    []int
 	Preempt int // number of pre-emptive switches taken
-	rng    *rand.Rand
-	maxPre int
+	rng     *rand.Rand
+	maxPre  int
 
 	Deadlock bool
 	Hang     bool
@@ -57,7 +78,27 @@ type Exec struct {
 var (
 	globalMu sync.Mutex
 	current  *Exec
+	// truthful[op]: 1 = the announcement of op really blocks when the lock is held, 2 = stale (plain yield)
+	truthful   = map[string]int{}
+	truthfulMu sync.Mutex
 )
+
+type prober interface{ VerifProbe() bool }
+
+// reallyFree reports whether the announced lock is free right now.
+func reallyFree(obj any) bool {
+	switch m := obj.(type) {
+	case *sync.Mutex:
+		if m.TryLock() {
+			m.Unlock()
+			return true
+		}
+		return false
+	case prober:
+		return m.VerifProbe()
+	}
+	return true // harness-owned points (the encoder) never block
+}
 
 func init() {
 	common.VerifSchedHook = func(obj any, op, phase string) {
@@ -91,21 +132,53 @@ func (e *Exec) name(obj any) string {
 // Name registers a readable name for a lock object.
 func (e *Exec) Name(obj any, n string) { e.names[obj] = n }
 
+// thread identification: goroutine-local via a map keyed by the gate channel is
+// not available inside the hook, so each program thread carries its identity
+// in a goroutine-local variable set up by Run (closure) and looked up through
+// goid.
+func (e *Exec) self() *thread {
+	// fast path: exactly one program thread is running (the one last released)
+	if !e.multi.Load() {
+		return e.single
+	}
+	id := goid()
+	e.mu.Lock()
+	t := e.cur[id]
+	e.mu.Unlock()
+	return t
+}
+
 func (e *Exec) hook(obj any, op, phase string) {
-	t := e.cur
+	t := e.self()
+	if t == nil {
+		return // not a program thread
+	}
 	if phase == "before" {
+		e.mu.Lock()
 		t.pending, t.pendOp = obj, op
-		t.parked = true
+		e.mu.Unlock()
 		e.sig <- t.id
 		<-t.gate
 		return
 	}
 	e.mu.Lock()
-	if e.held[obj] == t {
-		delete(e.held, obj)
-	}
 	e.Trace = append(e.Trace, Event{T: t.id, Op: op, Lock: e.name(obj), Phase: "rel"})
 	e.mu.Unlock()
+}
+
+// goid returns the current goroutine's id (parsed from the stack header).
+func goid() int64 {
+	var buf [64]byte
+	n := runtime.Stack(buf[:], false)
+	// "goroutine 123 [running]:"
+	var id int64
+	for _, c := range buf[10:n] {
+		if c < '0' || c > '9' {
+			break
+		}
+		id = id*10 + int64(c-'0')
+	}
+	return id
 }
 
 // Mode of choosing among enabled threads beyond the prefix.
@@ -116,59 +189,133 @@ const (
 	Random             // seeded random
 )
 
+const blockTimeout = 3 * time.Millisecond
+
 // Run executes the program (one func per thread) under the schedule prefix.
 func Run(prog []func(), prefix []int, mode Mode, rng *rand.Rand, maxPreempt int, setup func(*Exec)) *Exec {
 	globalMu.Lock()
 	defer globalMu.Unlock()
-	e := &Exec{sig: make(chan int), held: map[any]*thread{}, names: map[any]string{}, prefix: prefix, rng: rng,
-		maxPre: maxPreempt}
+	e := &Exec{sig: make(chan int), names: map[any]string{}, prefix: prefix, rng: rng, maxPre: maxPreempt,
+		cur: map[int64]*thread{}}
 	if setup != nil {
 		setup(e)
 	}
 	for i := range prog {
-		e.threads = append(e.threads, &thread{id: i, gate: make(chan struct{}), parked: true})
+		e.threads = append(e.threads, &thread{id: i, gate: make(chan struct{}), state: stParked})
 	}
 	current = e
 	e.active = true
 	for i, f := range prog {
 		t, f := e.threads[i], f
 		go func() {
+			e.mu.Lock()
+			e.cur[goid()] = t
+			e.mu.Unlock()
 			<-t.gate
 			f()
-			t.done = true
-			t.parked = false
-			e.sig <- t.id
+			e.mu.Lock()
+			t.pending = nil
+			t.state = stDone
+			e.mu.Unlock()
+			e.sig <- -(t.id + 1)
 		}()
+	}
+	// absorb reports from threads: id >= 0 parked, id < 0 finished
+	absorb := func(id int) {
+		if id >= 0 {
+			e.threads[id].state = stParked
+		} // done state is set by the thread itself
+	}
+	drain := func(d time.Duration) {
+		var tmo <-chan time.Time
+		for {
+			blocked := false
+			for _, u := range e.threads {
+				if u.state == stBlocked {
+					blocked = true
+				}
+			}
+			if !blocked {
+				return
+			}
+			if tmo == nil {
+				tmo = time.After(d)
+			}
+			select {
+			case id := <-e.sig:
+				absorb(id)
+			case <-tmo:
+				return
+			}
+		}
 	}
 	last := -1
 	for {
+		drain(2 * time.Millisecond)
 		var enabled []*thread
-		alldone := true
+		var spec []bool
+		alldone, anyBlocked := true, false
 		for _, t := range e.threads {
-			if t.done {
+			switch t.state {
+			case stDone:
+				continue
+			case stBlocked:
+				alldone = false
+				anyBlocked = true
 				continue
 			}
 			alldone = false
-			if !t.parked {
+			if t.state != stParked {
 				continue
 			}
-			if t.pending == nil || e.held[t.pending] == nil {
+			t.wasFree = t.pending == nil || reallyFree(t.pending)
+			if t.wasFree {
 				enabled = append(enabled, t)
+				spec = append(spec, false)
+				continue
+			}
+			truthfulMu.Lock()
+			k := truthful[t.pendOp]
+			truthfulMu.Unlock()
+			if k == 2 { // stale announcement: a plain yield
+				enabled = append(enabled, t)
+				spec = append(spec, false)
+			} else if k == 0 { // unknown: try it once
+				enabled = append(enabled, t)
+				spec = append(spec, true)
 			}
 		}
 		if alldone {
 			break
 		}
 		if len(enabled) == 0 {
+			if anyBlocked {
+				// a thread blocked in a real Lock() may be about to get through
+				drain(100 * time.Millisecond)
+				still := true
+				for _, u := range e.threads {
+					if u.state == stParked || u.state == stRunning {
+						still = false
+					}
+				}
+				done := true
+				for _, u := range e.threads {
+					if u.state != stDone {
+						done = false
+					}
+				}
+				if done || !still {
+					continue
+				}
+			}
 			e.Deadlock = true
 			break
 		}
-		// bounded pre-emption: once the budget is used, keep running the last thread while it is enabled
-		choices := enabled
+		choices, cspec := enabled, spec
 		if e.maxPre >= 0 && e.Preempt >= e.maxPre && last >= 0 {
-			for _, t := range enabled {
+			for i, t := range enabled {
 				if t.id == last {
-					choices = []*thread{t}
+					choices, cspec = []*thread{t}, []bool{spec[i]}
 				}
 			}
 		}
@@ -195,17 +342,55 @@ func Run(prog []func(), prefix []int, mode Mode, rng *rand.Rand, maxPreempt int,
 		last = t.id
 		e.mu.Lock()
 		if t.pending != nil {
-			e.held[t.pending] = t
 			e.Trace = append(e.Trace, Event{T: t.id, Op: t.pendOp, Lock: e.name(t.pending), Phase: "acq"})
 		}
+		op := t.pendOp
 		e.mu.Unlock()
-		t.parked = false
-		e.cur = t
+		t.state = stRunning
+		e.single = t
 		t.gate <- struct{}{}
-		select {
-		case <-e.sig:
-		case <-time.After(5 * time.Second):
-			e.Hang = true
+		// wait for t (and for threads that were blocked in real locks and got through meanwhile)
+		speculative := cspec[idx]
+		risky := speculative || (t.pending != nil && !reallyFreeCached(t))
+		var deadline <-chan time.Time
+		if risky {
+			deadline = time.After(10 * time.Second)
+		}
+	wait:
+		for {
+			var tmo <-chan time.Time
+			if risky {
+				tmo = time.After(blockTimeout)
+			}
+			select {
+			case id := <-e.sig:
+				who := id
+				if id < 0 {
+					who = -id - 1
+				}
+				absorb(id)
+				if who == t.id {
+					if speculative {
+						truthfulMu.Lock()
+						truthful[op] = 2
+						truthfulMu.Unlock()
+					}
+					break wait
+				}
+			case <-tmo:
+				// t did not get past its announced lock: the announcement is truthful
+				if speculative {
+					truthfulMu.Lock()
+					truthful[op] = 1
+					truthfulMu.Unlock()
+				}
+				e.multi.Store(true)
+				t.state = stBlocked
+				break wait
+			case <-deadline:
+				e.Hang = true
+				break wait
+			}
 		}
 		if e.Hang {
 			break
